@@ -391,6 +391,9 @@ def gen_combined_diff(rng, conflict=None):
         region = regions[0]
     for pre, b in hl:
         lines.append(pre + b)
+        if rng.random() < 0.08:
+            # `\ No newline at end of file` inside a combined hunk: the lines after it are still lines of a combined diff
+            lines.append("\\ No newline at end of file")
     for k, rg in enumerate(regions):
         if k:
             lines += ["  " + body() for _ in range(rng.randint(0, 2))]
